@@ -395,8 +395,8 @@ func (c *MustacheParser) performSyntaxAnalysisForSection(variable string) ([]*Mu
 		result = append(result, resultToken)
 	}
 
-	token := c.getCurrentToken()
-	err = merr.NewMustacheError("", ErrCodeNotClosedSection, "Not closed section for variable '"+variable+"'", token.Line(), token.Column())
+	// The input ended inside the section: there is no current token to point at
+	err = merr.NewMustacheError("", ErrCodeNotClosedSection, "Not closed section for variable '"+variable+"'", 0, 0)
 	return nil, err
 }
 
